@@ -164,10 +164,18 @@ package parser
 //@   ensures wellFormed(result)
 
 // Relaxed mode, YAML inside a YAML scalar: the line after the scalar's first line is read from the file's line table.
-//@ func Parser.parseNode [C02]
+//@ func Parser.parseNode [C02, C06]
 //@   requires node != nil && node.Line >= 0
 //@   assumed requires
 //@   safe index
+// rules embedded as a block scalar (YAML inside YAML): the nested document is displaced by the line of its key and
+// by the real indentation of the block in the file (the leading spaces of its first line), nothing else
+//@   at call Parser.parseNode#3 assert [C06] arg4 == offsetLine + node.Line && isLead(contentLines[node.Line], arg5 - offsetColumn)
+//@ spec func isLead(line string, k int) bool = 0 <= k && k <= len(line) && (forall i int :: 0 <= i && i < k ==> line[i] == ' ') && (k == len(line) || line[k] != ' ')
+// (the loop ranges over runes; the engine does not relate a rune to the bytes it was decoded from, so the meaning of
+// the result is an assumed postcondition, listed in the evidence)
+//@ func countLeadingSpace [C06]
+//@   assumed ensures isLead(line, i)
 
 // Every field node the parser builds carries at least one position (C06 / C02: reporters index and take maxima
 // over them). yaml.v3 nodes are 1-indexed: that fact about the dependency is assumed at the call sites.
